@@ -21,6 +21,39 @@ def sp_groups(pattern: str) -> int:
     return _sp.parse(pattern).state.groups - 1
 
 
+def _only_prints(mod, meth, caller_q, depth=0):
+    """Does the method `meth` of the caller's class do nothing but print (plain statements, loops over pure iterables, tests)?"""
+    cls = caller_q.split('.')[0] if '.' in caller_q else None
+    fn = mod.functions.get(f'{cls}.{meth}') if cls else None
+    if fn is None or depth > 2:
+        return False
+    READ = ('group', 'start', 'end', 'format', 'join', 'repr', 'str', 'len', 'zip', 'enumerate', 'sorted', 'reversed', 'range', 'items', 'keys', 'values',
+            'bool', 'int', 'hex', 'get', 'lower', 'upper', 'type', 'isinstance', 'tuple', 'list', 'dict', 'getattr', '_asdict')
+
+    def pure(e):
+        return not any(isinstance(x, (ast.NamedExpr, ast.Yield, ast.YieldFrom, ast.Await)) or (
+            isinstance(x, ast.Call) and call_name(x).split('.')[-1] not in READ) for x in ast.walk(e))
+    todo = [st for st in fn.body if not (isinstance(st, ast.Expr) and isinstance(st.value, ast.Constant))]
+    while todo:
+        st = todo.pop()
+        if isinstance(st, ast.If) and pure(st.test):
+            todo.extend(st.body + st.orelse)
+        elif isinstance(st, ast.For) and pure(st.iter):
+            todo.extend(st.body + st.orelse)
+        elif isinstance(st, ast.Expr) and isinstance(st.value, ast.Call) and call_name(st.value) == 'print' and all(pure(a) for a in st.value.args):
+            continue
+        elif isinstance(st, ast.Assign) and all(isinstance(t, ast.Name) for t in st.targets) and pure(st.value):
+            continue
+        elif isinstance(st, (ast.Pass,)) or (isinstance(st, ast.Return) and st.value is None):
+            continue
+        elif isinstance(st, ast.Expr) and isinstance(st.value, ast.Call) and call_name(st.value).startswith(('self.', 'cls.')) \
+                and _only_prints(mod, call_name(st.value).split('.', 1)[1], caller_q, depth + 1):
+            continue
+        else:
+            return False
+    return True
+
+
 def pretty_tokens(ctx):
     """pretty.TOKENS as {token name: inventoried regex}, whatever way the table is assembled (a dict literal, per-feature
     tables merged at import time): the module-level value is obtained by interpretation and each pattern is looked up in the
@@ -295,6 +328,10 @@ def run(ctx, report: Report) -> None:
                         elif isinstance(st, ast.Expr) and isinstance(st.value, ast.Call) and call_name(st.value) == 'print':
                             if not all(pure(a) for a in st.value.args):
                                 bad.append(st)
+                        elif isinstance(st, ast.Expr) and isinstance(st.value, ast.Call) and call_name(st.value).startswith(('self.', 'cls.')) \
+                                and _only_prints(mod, call_name(st.value).split('.', 1)[1], q) and all(
+                                    isinstance(a, (ast.Name, ast.Attribute, ast.Constant)) or pure(a) for a in st.value.args):
+                            pass        # a helper method of the same class whose body only prints (checked recursively)
                         elif isinstance(st, ast.Pass):
                             pass
                         else:
